@@ -10,7 +10,7 @@ macro_rules! helper_twins {
             use super::*;
             #[cfg(kani)]
             #[kani::proof]
-            fn mul_overflow_all_fracs() {
+            pub fn mul_overflow_all_fracs() {
                 let (a, b): ($T, $T) = (kani::any(), kani::any());
                 let f = any_frac8();
                 let p = pol($signed, floor_div(a as i32 * b as i32, 1i32 << f));
@@ -18,7 +18,7 @@ macro_rules! helper_twins {
             }
             #[cfg(kani)]
             #[kani::proof]
-            fn div_overflow_all_fracs() {
+            pub fn div_overflow_all_fracs() {
                 let (a, b): ($T, $T) = (kani::any(), kani::any());
                 let f = any_frac8();
                 kani::assume(b != 0);
@@ -39,7 +39,7 @@ macro_rules! form_twins {
             fn fx(b: i32) -> Fx { Fx::from_bits(b as $T) }
             #[cfg(kani)]
             #[kani::proof]
-            fn mul_forms() {
+            pub fn mul_forms() {
                 let (a, b): ($T, $T) = (kani::any(), kani::any());
                 let r = floor_div(a as i32 * b as i32, 1i32 << $f);
                 let p = pol($signed, r);
@@ -51,7 +51,7 @@ macro_rules! form_twins {
             }
             #[cfg(kani)]
             #[kani::proof]
-            fn div_forms() {
+            pub fn div_forms() {
                 let (a, b): ($T, $T) = (kani::any(), kani::any());
                 let (x, y) = (Fx::from_bits(a), Fx::from_bits(b));
                 if b == 0 {
@@ -67,7 +67,7 @@ macro_rules! form_twins {
             }
             #[cfg(kani)]
             #[kani::proof]
-            fn add_sub_neg_forms() {
+            pub fn add_sub_neg_forms() {
                 let (a, b): ($T, $T) = (kani::any(), kani::any());
                 let (x, y) = (Fx::from_bits(a), Fx::from_bits(b));
                 let p = pol($signed, a as i32 + b as i32);
@@ -88,7 +88,7 @@ macro_rules! form_twins {
             }
             #[cfg(kani)]
             #[kani::proof]
-            fn mul_div_int_forms() {
+            pub fn mul_div_int_forms() {
                 let (a, n): ($T, $T) = (kani::any(), kani::any());
                 let x = Fx::from_bits(a);
                 let p = pol($signed, a as i32 * n as i32);
@@ -118,7 +118,7 @@ form_twins!(u8f0, FixedU8, u8, false, U0, 0);
 // C02: abs forms exist on the signed types only
 #[cfg(kani)]
 #[kani::proof]
-fn abs_forms_i8() {
+pub fn abs_forms_i8() {
     let a: i8 = kani::any();
     type Fx = FixedI8<U2>;
     let x = Fx::from_bits(a);
